@@ -14,7 +14,8 @@
 //!   va64 labels <programs.ndjson> <out.ndjson>
 //!       replays label programs {"id":n,"nl":k,"prog":[["Pad",n],["Bind",l],["B",l],["BCond",cc,l],
 //!       ["Cbz",variant,r,l],["Tbz",variant,r,bit,l],["Adr",r,l]]} and writes
-//!       {"id":n,"ok":true,"sites":[[byte_pos,[[hi,lo],..]],..],"len":bytes} (one site per non-Pad, non-Bind item)
+//!       {"id":n,"ok":true,"sites":[[byte_pos,[[hi,lo],..]],..],"labs":[byte position of every label],"len":bytes}
+//!       (one site per non-Pad, non-Bind item)
 //!       or {"id":n,"ok":false}
 //!
 //! A panic (assert) of the code under test is data ("refused"), never a harness failure.
@@ -553,6 +554,22 @@ fn record(out: &str, seed: u64, tier: &str) {
                 let x = if nx > 0 && rng.chance(1, 3) { rng.below(nx as u64) as u8 } else { g.1 };
                 emit(&Ops { r: plain_regs(&rk, &mut rng), i: imms, x }, &mut w, &mut total, &mut refused);
             }
+            // powers of two and their neighbours for every immediate position (both sides of every field limit)
+            for p in 0..ik.len() {
+                for k in 6..27u32 {
+                    for (j, d) in [(1i64 << k) - 1, 1i64 << k, -(1i64 << k), -(1i64 << k) - 1].into_iter().enumerate() {
+                        let g = &good[(k as usize + j) % good.len()];
+                        let mut imms = g.0.clone();
+                        imms[p] = match ik[p] {
+                            'u' => { if d < 0 { continue; } Imm::U32(d as u32) }
+                            'i' => Imm::I32(d as i32),
+                            'U' => { if d < 0 { continue; } Imm::U64(d as u64) }
+                            _ => Imm::I64(d),
+                        };
+                        emit(&Ops { r: plain_regs(&rk, &mut rng), i: imms, x: g.1 }, &mut w, &mut total, &mut refused);
+                    }
+                }
+            }
             // dense sweep of small values for every immediate position (field boundaries of 1..7-bit fields)
             for p in 0..ik.len() {
                 let dense: Vec<i64> = if sc.sweep_combos > 1 { (-70..=70).collect() } else { vec![-65, -64, -33, -32, -17, -16, -9, -8, -5, -4, -2, -1, 0, 1, 2, 3, 4, 5, 7, 8, 15, 16, 17, 31, 32, 33, 63, 64, 65] };
@@ -662,18 +679,20 @@ fn labels(inp: &str, out: &str) {
                     a.bind_label(ls[k]);
                 }
             }
+            let labs: Vec<u32> = ls.iter().map(|l| a.offset(*l).unwrap()).collect();
             let code = a.finalize(1).code();
-            (sites, code)
+            (sites, code, labs)
         }));
         n += 1;
         match res {
-            Ok((sites, code)) => {
+            Ok((sites, code, labs)) => {
                 let mut ss: Vec<String> = Vec::new();
                 for (s, e) in sites {
                     let ws: Vec<u32> = code[s..e].chunks(4).map(|c| u32::from_le_bytes([c[0], c[1], c[2], c[3]])).collect();
                     ss.push(format!("[{},{}]", s, words_json(&ws)));
                 }
-                writeln!(w, "{{\"id\":{},\"ok\":true,\"sites\":[{}],\"len\":{}}}", id, ss.join(","), code.len()).unwrap();
+                let lb: Vec<String> = labs.iter().map(|x| x.to_string()).collect();
+                writeln!(w, "{{\"id\":{},\"ok\":true,\"sites\":[{}],\"labs\":[{}],\"len\":{}}}", id, ss.join(","), lb.join(","), code.len()).unwrap();
             }
             Err(_) => {
                 refused += 1;
